@@ -1,0 +1,72 @@
+//go:build verif
+// +build verif
+
+package jmespath
+
+// Hooks for the verification harness in /verif. This file is compiled only
+// with -tags verif; it adds read-only views of unexported data and changes
+// no behaviour.
+
+// VerifToken is an exported copy of a lexer token.
+type VerifToken struct {
+	Type     int
+	TypeName string
+	Value    string
+	Position int
+	Length   int
+}
+
+// VerifTokens runs the lexer on expression and returns its tokens.
+func VerifTokens(expression string) ([]VerifToken, error) {
+	toks, err := NewLexer().tokenize(expression)
+	out := make([]VerifToken, 0, len(toks))
+	for _, t := range toks {
+		out = append(out, VerifToken{int(t.tokenType), t.tokenType.String(), t.value, t.position, t.length})
+	}
+	return out, err
+}
+
+// VerifNode is an exported copy of an ASTNode. Value is nil, a string, an
+// int, a VerifTokType (comparator), a []*int (slice bounds) or, for literal
+// nodes, the decoded JSON value.
+type VerifNode struct {
+	Type     int
+	TypeName string
+	Value    interface{}
+	Children []VerifNode
+}
+
+// VerifTokType wraps a token type stored as a node value.
+type VerifTokType struct {
+	Type     int
+	TypeName string
+}
+
+// VerifAST returns an exported copy of node.
+func VerifAST(node ASTNode) VerifNode {
+	out := VerifNode{Type: int(node.nodeType), TypeName: node.nodeType.String()}
+	switch v := node.value.(type) {
+	case tokType:
+		out.Value = VerifTokType{int(v), v.String()}
+	default:
+		out.Value = v
+	}
+	for _, c := range node.children {
+		out.Children = append(out.Children, VerifAST(c))
+	}
+	return out
+}
+
+// VerifCompiledAST returns the AST held by a compiled expression.
+func VerifCompiledAST(jp *JMESPath) VerifNode {
+	return VerifAST(jp.ast)
+}
+
+// VerifExpRef reports whether v is the interpreter's internal expression
+// reference value and, if so, returns the referenced AST.
+func VerifExpRef(v interface{}) (VerifNode, bool) {
+	if e, ok := v.(expRef); ok {
+		return VerifAST(e.ref), true
+	}
+	return VerifNode{}, false
+}
